@@ -1097,6 +1097,56 @@ theorem serve_framed (stream : Bytes) (res : Sock × List Req) (h : serve { inp 
   exact iterate_serve_framed stream _ _ res ⟨[], rfl⟩ (by simp) h
 
 
+/-- every request handed to the application has a path without `..` and without NUL -/
+theorem serve_paths (s : Sock) (res : Sock × List Req) (h : serve s = .ok res) :
+    ∀ q ∈ res.2, hasDD q.path = false ∧ ∀ c ∈ q.path, c ≠ 0 := by
+  unfold serve at h
+  have key : ∀ (fuel : Nat) (x : SrvSt) (res : Sock × List Req),
+      (∀ q ∈ x.acc, hasDD q.path = false ∧ ∀ c ∈ q.path, c ≠ 0) → iterate serveStep fuel x = .ok res →
+      ∀ q ∈ res.2, hasDD q.path = false ∧ ∀ c ∈ q.path, c ≠ 0 := by
+    intro fuel
+    induction fuel with
+    | zero => intro x res _ h; simp [iterate, throw, throwThe, MonadExceptOf.throw] at h
+    | succ fuel ih =>
+      intro x res hacc h
+      simp only [iterate] at h
+      have hread : ∀ q s', AslModel.HttpParse.read x.s = .ok (q, s') → hasDD q.path = false ∧ ∀ c ∈ q.path, c ≠ 0 := by
+        intro q s' hrd
+        obtain ⟨r0, hr0, _, _, h1, h2⟩ := read_ok x.s
+        rw [hrd] at hr0
+        simp only [Except.ok.injEq] at hr0
+        rw [← hr0] at h1 h2
+        exact ⟨h1, h2⟩
+      cases hstep : serveStep x with
+      | error e => rw [hstep] at h; simp at h
+      | ok st =>
+        rw [hstep] at h
+        have hinv := serveStep_inv x st hstep
+        cases st with
+        | done r =>
+          simp only [pure, Except.pure, Except.ok.injEq] at h
+          subst h
+          simp only at hinv
+          rcases hinv with hr | ⟨q, s', hr, _, hrd, _, _⟩
+          · intro q hq; rw [hr] at hq; exact hacc q (List.mem_reverse.mp hq)
+          · intro q' hq'
+            rw [hr] at hq'
+            rcases List.mem_cons.mp (List.mem_reverse.mp hq') with rfl | hq'
+            · exact hread _ s' hrd
+            · exact hacc q' hq'
+        | next y =>
+          simp only at hinv h
+          obtain ⟨q, s', _, hrd, _, _, _, hya⟩ := hinv
+          apply ih y res _ h
+          intro q' hq'
+          rcases hya with hya | hya
+          · rw [hya] at hq'; exact hacc q' hq'
+          · rw [hya] at hq'
+            rcases List.mem_cons.mp hq' with rfl | hq'
+            · exact hread _ s' hrd
+            · exact hacc q' hq'
+  exact key _ _ res (by simp) h
+
 /-! ## input is consumed from the front only: what is left is a suffix of what was there -/
 
 theorem iterate_headers_suffix : ∀ (fuel : Nat) (x : HSt) (r : Sock × Dic),
